@@ -77,7 +77,8 @@ def check(chk, repo):
                     if k == "features":
                         feats = v
                 if dom == ("call", ("builtin", "enumerate"), (("param", "X_unlabeled"),), ()):
-                    okn = okn and feats == ("iterproj", dom, li.lid, (1,))
+                    okn = okn and feats in (("iterproj", dom, li.lid, (1,)),
+                                            ("idx", ("param", "X_unlabeled"), ("iterproj", dom, li.lid, (0,))))
                 elif dom == ("param", "X_unlabeled"):
                     okn = okn and feats == ("iter", dom, li.lid)
                 else:
